@@ -1703,9 +1703,13 @@ class FakedWBEMConnection(WBEMConnection):
         parameters defined for that method and map response to tuple response
         for imethodcall.
         """
-        self._mainprovider.DeleteClass(
-            namespace,
-            ClassName=_cvt_rqd_classname(params['ClassName']))
+        # The deletion of the instances of the class and of its subclasses
+        # goes through their providers and can be rejected for any of them,
+        # so a failed deletion must not leave a part of it behind.
+        with self._unchanged_if_failed():
+            self._mainprovider.DeleteClass(
+                namespace,
+                ClassName=_cvt_rqd_classname(params['ClassName']))
 
     # Qualifier declaration operations
 
